@@ -12,12 +12,14 @@ namespace nmtools::array::simd
 
     // clang accepts both, but gcc only the latter
     // error: ignoring attributes applied to dependent type ‘dtype_t’ without an associated declaration
+    // vector_size is in BYTES: a bit_width-bit register holds bit_width / 8 bytes,
+    // i.e. exactly the bit_width / (8 * sizeof(dtype_t)) lanes that loadu / storeu / set1 fill
     #if 0
     template <auto bit_width, typename dtype_t>
-    using vector_type_t = dtype_t __attribute__((vector_size(bit_width / sizeof(dtype_t))));
+    using vector_type_t = dtype_t __attribute__((vector_size(bit_width / 8)));
     #else
     template <auto bit_width, typename dtype_t>
-    using vector_type_t __attribute__((vector_size(bit_width / sizeof(dtype_t)))) = dtype_t;
+    using vector_type_t __attribute__((vector_size(bit_width / 8))) = dtype_t;
     #endif
 
     template <auto n_bit>
